@@ -31,6 +31,12 @@ func c04Run(t gen.TB, w *gen.World, desc string, keyHint string) {
 			Detail: fmt.Sprintf("%s: model rejects (%s), library accepted", desc, m.Reason), Replay: rp})
 		return
 	}
+	if m.MalformedLevel {
+		// with a malformed level in the list, skipping it and refusing the document are both fine; accepting needs the skip reading to accept
+		gen.Class("model:malformed-level-present")
+		gen.NonTrivial(desc, w.TcbInfo.Render())
+		return
+	}
 	if !v.Accepted() && m.Accept {
 		gen.Fail(t, gen.Violation{Key: "rejects-good-tcb:" + errClass(v.Err), Oracle: "an UpToDate platform and module with matching identity fields is accepted",
 			Detail: fmt.Sprintf("%s: model accepts (platform level %d, module level %d), library: %s", desc, m.PlatformLevel, m.ModuleLevel, v), Replay: rp})
@@ -292,7 +298,36 @@ func TestC04(t *testing.T) {
 		w.SignQuote()
 		w.BuildCollateral()
 		// perturb the TCB Info
-		switch rapid.IntRange(0, 16).Draw(t, "perturb") {
+		switch rapid.IntRange(0, 18).Draw(t, "perturb") {
+		case 17, 18:
+			// a level whose component lists are not lists of 16 entries (absent, empty, null, 15, 17, 1): it can never
+			// be the matching level. It is put in front as the ONLY UpToDate level, so that skipping it and refusing the
+			// document both end in rejection, while "an absent list is satisfied by every platform" would accept.
+			shapes := []string{"absent", "empty", "null", "short", "long", "one"}
+			bad := gen.PlatformLevel{Sgx: w.Sgx.Comp, PceSvn: w.Sgx.PceSvn, Tdx: w.Q.TeeTcbSvn, Status: "UpToDate"}
+			if rapid.Bool().Draw(t, "zeroListed") {
+				bad.Sgx, bad.Tdx, bad.PceSvn = [16]byte{}, [16]byte{}, 0
+			}
+			switch rapid.IntRange(0, 2).Draw(t, "which") {
+			case 0:
+				bad.SgxShape = rapid.SampledFrom(shapes).Draw(t, "sgxShape")
+			case 1:
+				bad.TdxShape = rapid.SampledFrom(shapes).Draw(t, "tdxShape")
+			default:
+				bad.SgxShape, bad.TdxShape = rapid.SampledFrom(shapes).Draw(t, "sgxShape"), rapid.SampledFrom(shapes).Draw(t, "tdxShape")
+			}
+			for i := range w.TcbInfo.Levels {
+				if w.TcbInfo.Levels[i].Status == "UpToDate" {
+					w.TcbInfo.Levels[i].Status = rapid.SampledFrom([]string{"OutOfDate", "Revoked", "ConfigurationNeeded"}).Draw(t, "demoted")
+				}
+			}
+			pos := rapid.IntRange(0, 1).Draw(t, "badPos")
+			if pos == 0 || len(w.TcbInfo.Levels) == 0 {
+				w.TcbInfo.Levels = append([]gen.PlatformLevel{bad}, w.TcbInfo.Levels...)
+			} else {
+				w.TcbInfo.Levels = append(w.TcbInfo.Levels, bad)
+			}
+			gen.Class("level-with-malformed-component-list:" + bad.SgxShape + "/" + bad.TdxShape)
 		case 14, 15, 16:
 			// a TDX-module field of the wrong size whose beginning is exactly right (longer: the right value plus a
 			// suffix; shorter: a prefix of it): a comparison over the first bytes only would call it a match
